@@ -18,6 +18,10 @@ import MsVerif.Model.Checksum
 namespace MsVerif.Expr
 open MsVerif.Checksum
 
+/-- `crate::MAX_RECURSION_DEPTH` (lib.rs).  `parse_pre_check` compares the nesting with
+`MAX_RECURSION_DEPTH + 1` (the argument of a terminal adds a level of parentheses but no level
+of the Miniscript tree); `Miniscript::from_ast` keeps comparing the tree height with the
+constant itself. -/
 def MAX_RECURSION_DEPTH : Nat := 402
 
 /-- `ParseTreeError` variants reachable from `Tree::from_str`, with their positions -/
@@ -109,7 +113,8 @@ def parsePreCheck (s : List Char) : R (List Char × Nat × Nat) :=
       match st.stack with
       | (_, pos) :: _ => throw (.err (.unmatchedOpenParen pos))
       | [] =>
-        if st.maxDepth > MAX_RECURSION_DEPTH then
+        -- `u32::try_from(max_depth).unwrap_or(u32::MAX) > MAX_RECURSION_DEPTH + 1`
+        if st.maxDepth > MAX_RECURSION_DEPTH + 1 then
           throw (.err (.maxRecursionDepthExceeded st.maxDepth))
         else pure (body, st.maxDepth, st.nNodes)
 
